@@ -38,15 +38,9 @@ pub(crate) mod verif_hu4c {
     hu4c!(hu4c_weights_2, 2);
     hu4c!(hu4c_weights_3, 3);
     hu4c!(hu4c_weights_5, 5);
-    hu4c!(hu4c_weights_17, 17);
-    hu4c!(hu4c_weights_100, 100);
-    hu4c!(hu4c_weights_256, 256);
 }
 //@end
 //@harness hu4c_weights_2 kind=proof fn=huff0_encoder::distribute_weights,huff0_encoder::redistribute_weights props=C13 tier=quick bound="CONCRETE: alphabet of 2 used symbols; a bounded execution" witness=hu4c_weights_2 timeout=1200
 //@harness hu4c_weights_3 kind=proof fn=huff0_encoder::distribute_weights,huff0_encoder::redistribute_weights props=C13 tier=quick bound="CONCRETE: alphabet of 3 used symbols" witness=hu4c_weights_3 timeout=1200
 //@harness hu4c_weights_5 kind=proof fn=huff0_encoder::distribute_weights,huff0_encoder::redistribute_weights props=C13 tier=quick bound="CONCRETE: alphabet of 5 used symbols" witness=hu4c_weights_5 timeout=1200
 //@assume NOT RUN: alphabet sizes 17, 100 and 256 do not finish in CBMC within 20 min (concrete execution of nested Vec loops) and are not registered; distribute_weights is proved for every size in Verus unit HU4D, redistribute_weights only on these three sizes
-//@harness hu4c_weights_17 kind=proof fn=huff0_encoder::distribute_weights,huff0_encoder::redistribute_weights props=C13 tier=thorough bound="CONCRETE: alphabet of 17 used symbols" witness=hu4c_weights_17 timeout=1500
-//@harness hu4c_weights_100 kind=proof fn=huff0_encoder::distribute_weights,huff0_encoder::redistribute_weights props=C13 tier=thorough bound="CONCRETE: alphabet of 100 used symbols" witness=hu4c_weights_100 timeout=1800
-//@harness hu4c_weights_256 kind=proof fn=huff0_encoder::distribute_weights,huff0_encoder::redistribute_weights props=C13 tier=thorough bound="CONCRETE: alphabet of 256 used symbols (the maximum)" witness=hu4c_weights_256 timeout=2400
